@@ -109,7 +109,7 @@ class Policy:
             key = None
             val = None
             try:
-                key, val = line.split('=')
+                key, val = line.split('=', 1)  # Only split on the first '=', since values (such as base64-encoded GSS algorithm names) may contain '=' characters.
             except ValueError as ve:
                 raise ValueError("could not parse line: %s" % line) from ve
 
